@@ -95,7 +95,7 @@ def describe(trace, matched):
 
 
 def slim(t):
-    return {"name": t["name"], "open": t["open"], "typed": t["typed"], "closing": t["closing"], "steps": [{"cmd": "complete", "obs": {"ok": t["steps"][0]["obs"]["ok"]}}]}
+    return {"kind": "complete", "name": t["name"], "open": t["open"], "typed": t["typed"], "closing": t["closing"], "steps": [{"cmd": "complete", "obs": {"ok": t["steps"][0]["obs"]["ok"]}}]}
 
 
 def run(tier, seed, replay=None):
@@ -137,11 +137,18 @@ def run(tier, seed, replay=None):
     if bad_workers:
         raise tlc.TLCError("driver failure: " + json.dumps(bad_workers[0])[:3000])
     akinds = {}
+    OPS2 = ("$(", "@(", "![", "$[", "!(", "${", "&&", "||", ">>", "@$", "$(")
     for t in aout:
         o = t["steps"][0]["obs"]
         akinds[o["kind"]] = akinds.get(o["kind"], 0) + 1
-        if not o["ok"]:
-            res.violation(describe(t, 0), {"trace": t})
+        c = t["cursor"]
+        joined = t["text"]
+        # (a backslash-newline between the two characters does not separate them for the analyser)
+        around = (joined[:c].replace("\\\n", "")[-1:] + joined[c:].replace("\\\n", "")[:1])
+        around3 = (joined[:c].replace("\\\n", "")[-2:] + joined[c:].replace("\\\n", "")[:2])
+        t["feat"] = {"inside_op": around in OPS2 or any(op in around3 and around3.index(op) < 2 <= around3.index(op) + len(op) - 1 for op in ("@$(",) if op in around3)}
+    astats = core.validate_with_findings(res, "QuoteTrace", aout, trace_cfg, describe=describe, timeout=3000,
+                                         project=lambda t: {"kind": "analyse", "feat": t["feat"], "name": [], "open": "none", "typed": 0, "closing": "no", "steps": [{"cmd": "analyse", "obs": {"ok": bool(t["steps"][0]["obs"]["ok"])}}]}) if aout else {"validated": 0}
     kinds = {}
     for t in out:
         o = t["steps"][0]["obs"]
@@ -149,7 +156,7 @@ def run(tier, seed, replay=None):
     cov = {
         "states": mc.get("distinct", 1),
         "transitions": mc.get("states", 1),
-        "traces_validated_against_impl": stats["validated"],
+        "traces_validated_against_impl": stats["validated"] + astats["validated"],
         "samples": [{"name": t["text"], "open": t["open"], "line": t["steps"][0]["obs"]["line"], "inserted": t["steps"][0]["obs"].get("inserted"), "argv": t["steps"][0]["obs"].get("argv")} for t in out[-3:]]
         + [{"text": t["text"], "cursor": t["cursor"], "context": t["steps"][0]["obs"]["kind"]} for t in aout[-2:]],
         "evaluations": len(out) + len(aout),
@@ -159,7 +166,7 @@ def run(tier, seed, replay=None):
         "completion_outcomes": kinds,
         "analyser_outcomes": akinds,
         "names_not_creatable": len(skipped),
-        "trace_validation": stats,
+        "trace_validation": {"completion": stats, "analyser": astats},
         "exhaustive": False,
     }
     cov.update(res.coverage)
